@@ -267,6 +267,12 @@ def _away(x, lo, what):
         raise OutOfDomain(what)
 
 
+def _dom_sign(x):
+    # sign jumps at 0: a float operand that is zero only up to rounding (x - x after re-association) is not a point of the domain
+    if x.dtype.kind == 'f' and x.size and numpy.abs(x).min() < 1e-6:
+        raise OutOfDomain('sign at its jump')
+
+
 def _dom_arctan2(a, b):
     _away(numpy.hypot(a, b), .1, 'arctan2 near origin')
     a, b = numpy.broadcast_arrays(a, b)
@@ -280,7 +286,7 @@ UNARY = {
     'neg': ('ifc', lambda ev, a: ev.negative(a), numpy.negative, None),
     'abs': ('if', lambda ev, a: ev.abs(a), numpy.abs, None),
     'cabs': ('c', lambda ev, a: ev.abs(a), numpy.abs, lambda x: _away(x, .05, 'cabs near 0')),
-    'sign': ('if', lambda ev, a: ev.sign(a), numpy.sign, None),
+    'sign': ('if', lambda ev, a: ev.sign(a), numpy.sign, lambda x: _dom_sign(x)),
     'sqrt': ('f', lambda ev, a: ev.sqrt(a), lambda x: numpy.power(x, .5), lambda x: _pos(x)),
     'reciprocal': ('fc', lambda ev, a: ev.reciprocal(a), lambda x: 1 / x, lambda x: _away(x, .1, 'reciprocal near 0')),
     'exp': ('fc', lambda ev, a: ev.exp(a), numpy.exp, lambda x: _lt(x, 6)),
